@@ -143,7 +143,7 @@ func main() {
 	r.Assume("DualContouring with Repair or RandomSearchNormals is excluded from exact comparison (map iteration order / global RNG)")
 
 	opts := vlib.SectionOpts{Sequential: true}
-	procsList := []int{2, 3, 5, 8, 16}
+	procsList := []int{2, 3, 5, 8, 16, 65, 130} // also far above the core count: worker counts follow GOMAXPROCS
 
 	r.Section("mc.procs", r.N(24, 240), opts, func(c *vlib.Case) {
 		rng := c.Rng
@@ -181,7 +181,7 @@ func main() {
 	r.Section("mc.filter", r.N(40, 400), opts, func(c *vlib.Case) {
 		rng := c.Rng
 		s, delta := testSolid(rng)
-		p := []int{1, 2, 3, 5, 8, 16}[rng.Intn(6)]
+		p := []int{1, 2, 3, 5, 8, 16, 65, 96, 200}[rng.Intn(9)]
 		iters := rng.Intn(4)
 		wit := map[string]interface{}{"solid": s.Desc, "delta": fmt.Sprintf("%x", delta), "gomaxprocs": p, "iters": iters}
 		var ref, refSearch []vlib.Tri
@@ -258,7 +258,7 @@ func main() {
 			}
 			c.Count("mc.c2f.comparisons_with_ratio_8_to_24", 1)
 		}
-		p := []int{1, 3, 8, 16}[rng.Intn(4)]
+		p := []int{1, 3, 8, 16, 70, 150}[rng.Intn(6)]
 		wit := map[string]interface{}{"solid": s.Desc, "big": big, "small": small, "iters": iters, "gomaxprocs": p}
 		var ref, got []vlib.Tri
 		withProcs(1, func() { ref = vlib.CanonTris(vlib.Tris(model3d.MarchingCubesSearch(s, small, iters))) })
@@ -433,7 +433,7 @@ func marching2(r *vlib.Run) {
 		s, ds := discs(rng)
 		delta := 0.03 + 0.05*rng.Float64()
 		iters := rng.Intn(4)
-		p := []int{1, 2, 5, 16}[rng.Intn(4)]
+		p := []int{1, 2, 5, 16, 65, 120}[rng.Intn(6)]
 		wit := map[string]interface{}{"solid": s.desc, "delta": fmt.Sprintf("%x", delta), "iters": iters, "gomaxprocs": p}
 		s.hook = func() {}
 		ref := vlib.CanonSegs(vlib.Segs(model2d.MarchingSquaresSearch(s, delta, iters)))
@@ -491,7 +491,12 @@ func raster(r *vlib.Run) {
 		rng := c.Rng
 		s, ds := discs(rng)
 		rast := &model2d.Rasterizer{Scale: 20 + 60*rng.Float64(), Subsamples: 1 + rng.Intn(8)}
-		p := []int{1, 2, 5, 16}[rng.Intn(4)]
+		if rng.Intn(4) == 0 {
+			// more sub-samples than the 16-pixel tile size of the filter
+			rast.Subsamples = 9 + rng.Intn(28)
+			rast.Scale = 10 + 20*rng.Float64()
+		}
+		p := []int{1, 2, 5, 16, 80}[rng.Intn(5)]
 		wit := map[string]interface{}{"solid": s.desc, "scale": rast.Scale, "subsamples": rast.Subsamples, "gomaxprocs": p}
 		if rng.Intn(2) == 0 {
 			// a fixed canvas (documented Bounds override) that crops the shape on some sides and pads it on others
@@ -549,6 +554,28 @@ func raster(r *vlib.Run) {
 				if a.Pix[i] != b.Pix[i] {
 					w := a.Bounds().Dx()
 					c.Violation("model2d.Rasterizer.RasterizeColliderSolid/same-image", fmt.Sprintf("pixel (%d,%d): unfiltered %d, RasterizeColliderSolid %d", i%w, i/w, a.Pix[i], b.Pix[i]), wit)
+					return
+				}
+			}
+		}
+		// and the line drawing: RasterizeCollider against the unfiltered rasterisation of the hollow solid
+		if c.Index%4 == 0 {
+			lr := &model2d.Rasterizer{Scale: rast.Scale, Subsamples: rast.Subsamples, Bounds: rast.Bounds, LineWidth: 1 + 3*rng.Float64()}
+			poly := model2d.NewMeshPolar(func(t float64) float64 { return 0.5 + 0.3*math.Sin(2*t+float64(c.Index)) }, 30+rng.Intn(40))
+			coll := model2d.MeshToCollider(poly)
+			var a, b *image.Gray
+			withProcs(1, func() { a = lr.RasterizeSolid(model2d.NewColliderSolidHollow(coll, 0.5*lr.LineWidth/lr.Scale)) })
+			withProcs(p, func() { b = lr.RasterizeCollider(coll) })
+			c.Count("raster.comparisons", 1)
+			c.Count("raster.collider_line_comparisons", 1)
+			if a.Bounds() != b.Bounds() {
+				c.Violation("model2d.Rasterizer.RasterizeCollider/same-image", fmt.Sprintf("image sizes differ: %v vs %v", a.Bounds(), b.Bounds()), wit)
+				return
+			}
+			for i := range a.Pix {
+				if a.Pix[i] != b.Pix[i] {
+					w := a.Bounds().Dx()
+					c.Violation("model2d.Rasterizer.RasterizeCollider/same-image", fmt.Sprintf("pixel (%d,%d): unfiltered %d, RasterizeCollider %d (line width %g, subsamples %d)", i%w, i/w, a.Pix[i], b.Pix[i], lr.LineWidth, lr.Subsamples), wit)
 					return
 				}
 			}
